@@ -32,6 +32,20 @@ def collect(h):
         ("c04_first_user_id", "N", str(max_res + 1), rel),
         ("c04_max_singleton_id", "N", str(max_raw + 1 + h.go_int(m.group(1))), rel),
     ]
+    # upper bound validation puts on the explicit IDs an event may carry (none: every uint64 passes)
+    mrec = re.search(r"^const\s+MaxRecordID\s*=\s*RecordID\((.+?)\)\s*(?://.*)?$", h.src(rel), re.M)
+    val = h.src("pkg/istructsmem/validation.go")
+    if mrec:
+        expr = mrec.group(1).strip()
+        known = {"math.MaxInt64": 2**63 - 1, "math.MaxUint64": 2**64 - 1, "math.MaxInt32": 2**31 - 1, "math.MaxUint32": 2**32 - 1}
+        bound = known[expr] if expr in known else h.go_int(expr)
+        if len(re.findall(r"else if id > istructs\.MaxRecordID", val)) != 2:
+            raise h.Missing("pkg/istructsmem/validation.go: MaxRecordID exists but is not checked for argument rows and for creates")
+    else:
+        if "MaxRecordID" in val:
+            raise h.Missing(f"{rel}: validation.go mentions MaxRecordID but the constant was not found")
+        bound = 2**64 - 1
+    items.append(("c04_max_record_id", "N", str(bound), rel))
     # IsRaw: closed interval [MinRaw, MaxRaw]
     h.find("pkg/istructs/utils.go", r"return \(id >= MinRawRecordID\) && \(id <= MaxRawRecordID\)", "RecordID.IsRaw")
     # generator: starts at FirstUserRecordID, NextID returns then increments, UpdateOnSync jumps past syncID when syncID >= next
